@@ -25,6 +25,18 @@ def reply_for(rng, rid, h, size=None, status=0):
     return S.wrap_v2(S.AGGR_RESP_V2, [R.T(2, k)], KEY)
 
 
+def core_sig(sighex):
+    """the signature without the unknown non-critical padding element of reply_for (its length follows the encoded length of the request id,
+    which grows from one to two bytes in the course of a session)"""
+    if not sighex:
+        return sighex
+    try:
+        top = R.expand(R.read_tlv(bytes.fromhex(sighex))[0])
+        return b''.join(k.enc() for k in top.kids() if k.tag != 0x1ffe).hex()
+    except Exception:
+        return sighex
+
+
 def split_stream(buf, cuts):
     out, last = [], 0
     for c in sorted(set(cuts)):
@@ -858,7 +870,7 @@ def blocking_part(job, r):
         if q.rc != 0:
             r.viol('blocking-tcp:baseline-failed', 'honest conversation failed rc=%#x' % q.rc, '')
             continue
-        good = q['sig']
+        good = core_sig(q['sig'])
         L = len(state['body'])
         r.observe(('blocking-baseline', state['size']))
         # short reads / EINTR
@@ -868,7 +880,7 @@ def blocking_part(job, r):
             q = c('sign 0 0 ' + h.hex())
             r.observe(None)
             r.count('blocking_short_read_variants')
-            if q.rc != 0 or q.get('sig') != good:
+            if q.rc != 0 or core_sig(q.get('sig')) != good:
                 r.viol('blocking-tcp:short-read-changes-outcome', 'recv pattern %s: rc=%#x (unchunked: success)' % (sc, q.rc), 'recv=%s reply=%s' % (sc, state['body'].hex()[:300]))
         # EOF / reset / timeout at every offset
         offs = range(0, L) if L <= 1500 else sorted(set(list(range(0, 12)) + [L - 1, L - 2] + rng.sample(range(L), 40)))
